@@ -109,7 +109,9 @@ def distribution(cs):
 META = {
     "level_text": "Partial by nature (a composition over TLS, smux, KCP, websocket libraries): Coq theorems for the parts that are socketace's own "
                   "- multiplexer frame fits one carrier message on both ends, the copy loop reports end-of-stream only after writing all it "
-                  "read, handshake read-ahead is handed on (C06), the DNS carrier is a reliable byte pipe (C07, C09, C10) - and byte-for-byte "
+                  "read, the websocket byte-stream adapter returns exactly what was written for every sequence of writes and of read-buffer "
+                  "sizes (model run against two real adapters over a real websocket, read length by read length), handshake read-ahead is "
+                  "handed on (C06), the DNS carrier is a reliable byte pipe (C07, C09, C10) - and byte-for-byte "
                   "end-to-end transfers on every carrier, with boundary lengths and random write partitions, on every run.",
     "level_note": "Hypotheses: TLS transparent, smux per-stream FIFO, KCP reliable, gorilla delivers whole messages in order. They are exercised "
                   "end to end, not proved.",
